@@ -1138,7 +1138,11 @@ func (g *Gen) oneItem() {
 	n := g.r.Intn(20)
 	if g.o.NestedGeneric && !g.familyDone && g.r.Chance(1, 6) {
 		g.familyDone = true
-		g.itemGenericFamily()
+		if g.r.Chance(1, 2) {
+			g.itemGenericFamily()
+		} else {
+			g.itemGenericNesting()
+		}
 		return
 	}
 	switch {
@@ -1591,7 +1595,7 @@ func (g *Gen) itemGenericFamily() {
 func stressProgram(r *common.Rng) (string, string) {
 	var sb strings.Builder
 	sb.WriteString("package main\n\nimport frt\nimport slice\n\n")
-	kind := r.Intn(14)
+	kind := r.Intn(17)
 	d := []int{3, 6, 10, 16, 24, 40}[r.Intn(6)]
 	name := ""
 	switch kind {
@@ -1697,6 +1701,19 @@ func stressProgram(r *common.Rng) (string, string) {
 		for i := 1; i <= d; i++ {
 			fmt.Fprintf(&sb, "let c%d a b =\n  c%d (c%d a b) (c%d b a)\n\n", i, i-1, i-1, i-1)
 		}
+	case 14: // constructors of a generic union nested in an expression: the type is linear in the depth
+		name = "nested-constructors"
+		sb.WriteString("type OptS<T> =\n  | SomeS of T\n  | NoneS\n\nlet wrapS x =\n  " + strings.Repeat("SomeS (", d) + "x" + strings.Repeat(")", d) + "\n")
+	case 15: // the same with a three-case union
+		name = "nested-constructors-3"
+		sb.WriteString("type TagS<T> =\n  | FreshS of T\n  | CachedS of T\n  | StaleS of T\n\nlet wrapT x =\n  ")
+		for i := 0; i < d; i++ {
+			sb.WriteString([]string{"CachedS (", "FreshS (", "StaleS ("}[i%3])
+		}
+		sb.WriteString("x" + strings.Repeat(")", d) + "\n")
+	case 16: // literals of a generic record nested in an expression
+		name = "nested-record-literals"
+		sb.WriteString("type BoxS<T> = {ValS: T}\n\nlet wrapR x =\n  " + strings.Repeat("{ValS=", d) + "x" + strings.Repeat("}", d) + "\n")
 	default: // nested match on tuples of unions
 		name = "nested-match"
 		sb.WriteString("type M =\n  | MA of int\n  | MB\n\nlet f (m:M) =\n")
@@ -1708,4 +1725,63 @@ func stressProgram(r *common.Rng) (string, string) {
 		sb.WriteString(indent + "1\n")
 	}
 	return fmt.Sprintf("stress:%s:%d", name, d), sb.String()
+}
+
+// itemGenericNesting is a schema: a generic union used inside a generic record at the record's own parameter
+// (Box<T> = {Item: Opt<T>; Def: T}), an unannotated polymorphic constructor function, a consumer of one concrete
+// instance, and further definitions that instantiate the same types again through the constructor or merely
+// mention them. Every instance goes through fc's registry of record / union field types; what one definition
+// leaves there must not change how another one is translated.
+func (g *Gen) itemGenericNesting() {
+	k := g.fresh("N")
+	opt, box := "Opt"+k, "Box"+k
+	some, none := "Some"+k, "None"+k
+	item, def := "Item"+k, "Def"+k
+	optItem := len(g.items)
+	g.push("type", opt, "type "+opt+"<T> =\n  | "+some+" of T\n  | "+none+"\n\n")
+	boxItem := len(g.items)
+	g.use(optItem)
+	g.declSets[item+","+def] = true
+	g.push("type", box, "type "+box+"<T> = {"+item+": "+opt+"<T>; "+def+": T}\n\n")
+	wrap := g.fresh("wrap")
+	wrapItem := len(g.items)
+	g.use(boxItem)
+	g.use(optItem)
+	g.useSets[item+","+def] = true
+	g.push("let", wrap, "let "+wrap+" d o =\n  {"+item+"=o; "+def+"=d}\n\n")
+	base := []string{"int", "string", "bool"}[g.r.Intn(3)]
+	lit := map[string]string{"int": "1", "string": "\"s\"", "bool": "true"}[base]
+	// consumer under observation
+	{
+		name := g.fresh("itemOf")
+		g.use(boxItem)
+		g.use(optItem)
+		g.push("let", name, "let "+name+" (b: "+box+"<"+base+">) =\n  b."+item+"\n\n")
+	}
+	mk := g.fresh("mkB")
+	mkItem := len(g.items)
+	g.use(wrapItem)
+	g.use(boxItem)
+	g.use(optItem)
+	g.push("let", mk, "let "+mk+" (o: "+opt+"<"+base+">) =\n  "+wrap+" "+lit+" o\n\n")
+	{
+		name := g.fresh("getItem")
+		g.use(mkItem)
+		g.use(boxItem)
+		g.use(optItem)
+		g.push("let", name, "let "+name+" (o: "+opt+"<"+base+">) =\n  let b = "+mk+" o\n  b."+item+"\n\n")
+	}
+	{
+		name := g.fresh("unrelated")
+		g.use(boxItem)
+		g.use(optItem)
+		other := []string{"int", "string", "bool"}[g.r.Intn(3)]
+		g.push("let", name, "let "+name+" (q: "+box+"<"+other+">) =\n  1\n\n")
+	}
+	if g.r.Chance(1, 2) {
+		name := g.fresh("defOf")
+		g.use(boxItem)
+		g.use(optItem)
+		g.push("let", name, "let "+name+" (b: "+box+"<"+base+">) =\n  b."+def+"\n\n")
+	}
 }
